@@ -4,6 +4,7 @@
 package c04
 
 import (
+	"bytes"
 	"errors"
 	"fmt"
 	"os"
@@ -230,6 +231,151 @@ func genBadLink(t *rapid.T) tarx.Entry {
 		e.Name = "./" + e.Name
 	}
 	return e
+}
+
+// ThroughCase: an entry whose path passes through a link created earlier by
+// the same archive. Unpack promises not to extract anything through a symlink.
+type ThroughCase struct {
+	LinkName   string `json:"link_name"`
+	LinkTarget string `json:"link_target"`
+	Below      string `json:"below"` // path below the link, e.g. "x" or "sub/x"
+	Kind       string `json:"kind"`  // file | dir | symlink
+	Spelling   string `json:"spelling"`
+	Raw        bool   `json:"raw"`
+}
+
+var subThrough = ev.Register("through", func(tc ThroughCase) error {
+	c := ugen.Case{Spelling: "clean", Fault: ugen.Fault{Kind: "none"}}
+	name := tc.LinkName + "/" + tc.Below
+	switch tc.Spelling {
+	case "dotslash":
+		name = "./" + name
+	case "slash":
+		name = "/" + name
+	case "detour":
+		name = "zz/../" + name
+	case "dot":
+		name = tc.LinkName + "/./" + tc.Below
+	}
+	e := tarx.Entry{Name: name, Type: tc.Kind, Mode: 0644, Body: "IN:through", Raw: tc.Raw}
+	if tc.Kind == "symlink" {
+		e.Link = "nothing"
+		e.Body = ""
+	}
+	c.Entries = []tarx.Entry{
+		{Name: "real/", Type: "dir", Mode: 0755},
+		{Name: "real/sub/", Type: "dir", Mode: 0755},
+		{Name: tc.LinkName, Type: "symlink", Mode: 0777, Link: tc.LinkTarget, Raw: tc.Raw},
+		e,
+	}
+	a, err := ugen.NewArena(c)
+	if err != nil {
+		return fmt.Errorf("harness: arena: %v", err)
+	}
+	defer a.Close()
+	ev.NonTrivial(tc, "entry-below-link")
+	uerr, panicked := unpack(c, a)
+	if panicked != nil {
+		return fmt.Errorf("Unpack panicked: %v", panicked)
+	}
+	if uerr == nil {
+		return fmt.Errorf("entry %q lies below the link %q -> %q created by the same archive, but Unpack extracted it without error", name, tc.LinkName, tc.LinkTarget)
+	}
+	// and nothing may have been materialised through the link ("sub" alone
+	// already exists at real/sub, so it cannot tell)
+	if tc.Below != "sub" {
+		for _, base := range []string{"real", "real/sub"} {
+			if ugen.Exists(filepath.Join(a.Dst, base, tc.Below)) && !(base == "real" && strings.HasPrefix(tc.Below, "sub/") && false) {
+				if base == "real" && tc.Below == "sub/x" {
+					// real/sub/x can only come from this entry as well
+				}
+				return fmt.Errorf("entry %q was materialised through the link %q (found at %s/%s) although Unpack returned %v", name, tc.LinkName, base, tc.Below, uerr)
+			}
+		}
+	}
+	return nil
+})
+
+func TestPropThrough(t *testing.T) {
+	ev.Check(t, subThrough, func(t *rapid.T) ThroughCase {
+		return ThroughCase{
+			LinkName:   rapid.SampledFrom([]string{"l", "d/l", "real/l2"}).Draw(t, "lname"),
+			LinkTarget: rapid.SampledFrom([]string{"real", "./real", "real/sub", "real/../real"}).Draw(t, "ltarget"),
+			Below:      rapid.SampledFrom([]string{"x", "sub/x", "new/deep/x", "sub"}).Draw(t, "below"),
+			Kind:       rapid.SampledFrom([]string{"file", "dir", "symlink"}).Draw(t, "kind"),
+			Spelling:   rapid.SampledFrom([]string{"plain", "dotslash", "slash", "detour", "dot"}).Draw(t, "spelling"),
+			Raw:        rapid.Bool().Draw(t, "raw"),
+		}
+	})
+}
+
+// ReuseCase: one Packer value with a relative allow-list entry unpacks into
+// two different destinations; what is allowed is relative to each destination.
+type ReuseCase struct {
+	Allow      string `json:"allow"`       // relative allow-list entry
+	FirstLink  string `json:"first_link"`  // target of the link in the first archive (relative to the first dst)
+	SecondLink string `json:"second_link"` // target of the link in the second archive (relative to the second dst)
+	SecondOK   bool   `json:"second_ok"`   // whether the second target is allow-listed for the second dst
+}
+
+var subReuse = ev.Register("reuse", func(rc ReuseCase) error {
+	r, cleanup := fsx.Scratch("c04r-")
+	defer cleanup()
+	tree := fsx.Tree{
+		{Path: "one/dst", Kind: "dir", Mode: 0755}, {Path: "one/shared/f", Kind: "file", Content: "OUT:one-shared"},
+		{Path: "two/deep/dst", Kind: "dir", Mode: 0755}, {Path: "two/deep/shared/f", Kind: "file", Content: "OUT:two-shared"},
+		{Path: "one/shared-private/k", Kind: "file", Content: "OUT:private"},
+	}
+	if err := fsx.Materialise(r, tree, nil); err != nil {
+		return fmt.Errorf("harness: %v", err)
+	}
+	p, err := slug.NewPacker(slug.AllowSymlinkTarget(rc.Allow))
+	if err != nil {
+		return fmt.Errorf("harness: %v", err)
+	}
+	ev.NonTrivial(rc, "packer-reused-across-destinations")
+	mk := func(link string) []byte {
+		b, _ := tarx.Build([]tarx.Entry{{Name: "ok", Type: "file", Mode: 0644, Body: "x"}, {Name: "l", Type: "symlink", Mode: 0777, Link: link}}, nil)
+		return b
+	}
+	dst1 := filepath.Join(r, "one", "dst")
+	dst2 := filepath.Join(r, "two", "deep", "dst")
+	_ = p.Unpack(bytes.NewReader(mk(rc.FirstLink)), dst1)
+	err2 := p.Unpack(bytes.NewReader(mk(rc.SecondLink)), dst2)
+	if rc.SecondOK {
+		if err2 != nil {
+			return fmt.Errorf("second Unpack (same Packer, AllowSymlinkTarget(%q)) refused the link %q, which is allow-listed relative to the second destination: %v", rc.Allow, rc.SecondLink, err2)
+		}
+		return nil
+	}
+	if err2 == nil {
+		return fmt.Errorf("second Unpack (same Packer, AllowSymlinkTarget(%q)) accepted the link %q, which is not allow-listed for the second destination %q", rc.Allow, rc.SecondLink, dst2)
+	}
+	if fi, lerr := os.Lstat(filepath.Join(dst2, "l")); lerr == nil && fi.Mode()&os.ModeSymlink != 0 {
+		res, _, _ := fsx.Resolve(dst2, rc.SecondLink)
+		if !fsx.Inside(dst2, res) {
+			return fmt.Errorf("second Unpack reported %v but left the link l -> %q (resolves to %q)", err2, rc.SecondLink, res)
+		}
+	}
+	return nil
+})
+
+func TestPropReuse(t *testing.T) {
+	ev.Check(t, subReuse, func(t *rapid.T) ReuseCase {
+		rc := ReuseCase{Allow: rapid.SampledFrom([]string{"../shared", "../shared/", "../shared/f"}).Draw(t, "allow")}
+		rc.FirstLink = rapid.SampledFrom([]string{"../shared/f", "ok", "../shared", "../shared-private/k", "../nowhere"}).Draw(t, "first")
+		switch rapid.IntRange(0, 3).Draw(t, "second") {
+		case 0:
+			rc.SecondLink, rc.SecondOK = "../shared/f", true
+		case 1:
+			rc.SecondLink, rc.SecondOK = "../../../one/shared/f", false // the first destination's allowed directory
+		case 2:
+			rc.SecondLink, rc.SecondOK = "../../../one/shared-private/k", false
+		default:
+			rc.SecondLink, rc.SecondOK = "../shared-x", false
+		}
+		return rc
+	})
 }
 
 func TestPropLinks(t *testing.T) {
